@@ -31,7 +31,7 @@ func init() {
 			"ctx.File serves through a process-global FS instance; to keep episodes independent the same handler is exercised through ctx.FileFromFS with an identically configured per-episode FS",
 			"for syntactically invalid or multi-range Range headers any RFC-permitted answer is accepted (full 200, 206 of the first range, 416)",
 		},
-		RequiredProbes: []string{"range-closed", "range-open", "range-suffix", "range-unsatisfiable", "range-invalid", "range-multi", "range-overflow", "special-file-name", "empty-file", "big-file", "small-file", "head", "ims-304", "traversal", "index-file", "concurrent-same-file", "reader-stall", "client-rst", "cache-expired", "ctx-file-route", "dir-listing", "dir-listing-big", "compress-on", "gzip-response", "final-request", "file-modified-older", "file-modified-newer"},
+		RequiredProbes: []string{"range-closed", "range-open", "range-suffix", "range-unsatisfiable", "range-invalid", "range-multi", "range-overflow", "special-file-name", "empty-file", "big-file", "small-file", "head", "ims-304", "traversal", "index-file", "concurrent-same-file", "reader-stall", "client-rst", "cache-expired", "ctx-file-route", "dir-listing", "dir-listing-big", "compress-on", "gzip-response", "final-request", "hot-file", "file-modified-older", "file-modified-newer"},
 	}
 }
 
@@ -527,6 +527,23 @@ func RunC08(ep *core.Episode) {
 			r.gzip = tp.Choose("finalgzip", 2) == 1
 			if tp.Choose("finalrange", 3) == 1 {
 				r.rng, r.kind = "bytes=1-", "range-open"
+			}
+			if tp.Choose("hot", 2) == 1 {
+				// the file stays hot: it is requested twice per CacheDuration all through the settling time; only the
+				// last request, three cache periods after the last change, is the verdict
+				warm := *r
+				warm.final = false
+				for j := 0; j < 6; j++ {
+					w := warm
+					c.reqs = append(c.reqs, &w)
+					c.cl.Methods = append(c.cl.Methods, "GET")
+					c.cl.Sends = append(c.cl.Sends, Send{Data: encode(&w), AfterResps: c.phase1 + j, Delay: cacheDur / 2, Label: "warm"})
+				}
+				c.reqs = append(c.reqs, r)
+				c.cl.Sends = append(c.cl.Sends, Send{Data: encode(r), AfterResps: c.phase1 + 6, Delay: cacheDur / 2, Label: "final"})
+				ep.Probe("final-request")
+				ep.Probe("hot-file")
+				continue
 			}
 			c.reqs = append(c.reqs, r)
 			c.cl.Sends = append(c.cl.Sends, Send{Data: encode(r), AfterResps: c.phase1, Delay: settle, Label: "final"})
